@@ -487,7 +487,12 @@ fn exec_generic<V: HVal>(drv: &dyn Drv<V>, case: &Case1, mut log: Option<&mut Ve
             }
             Ok(Err(mut c)) => {
                 if let Some((j, field)) = out.hidden_divergence {
-                    if c.name != "stats_mismatch" && c.name != "panic" {
+                    // only symptoms that the diverged bookkeeping can explain are re-attributed
+                    let downstream: &[&str] = match field {
+                        "birth" => &["served_expired", "lost_entry", "lookup_changed_store", "expired_not_purged", "wrong_victim", "needless_eviction", "victim_count"],
+                        _ => &["wrong_victim"],
+                    };
+                    if downstream.contains(&c.name.as_str()) {
                         // the behaviour is wrong now because bookkeeping went wrong earlier: blame the cause
                         let owner = match field {
                             "birth" => "C06",
